@@ -56,6 +56,18 @@ type Contract struct {
 	Opaque   map[string]bool
 	NoFrame  bool
 	Bounds   string // "strict": slice hi <= len instead of cap
+	// Asserts: in-body assertions kept in the contract file, anchored at the
+	// statement whose source text starts with At:
+	//   assert[name] before "text" :: expr
+	Asserts []*AssertSpec
+}
+
+type AssertSpec struct {
+	Tag  string
+	At   string
+	E    Expr
+	Text string
+	Line int
 }
 
 type UFDecl struct {
@@ -128,7 +140,7 @@ var clauseKeywords = map[string]bool{
 	"invariant": true, "unroll": true, "inline": true, "pure": true, "trusted": true,
 	"panics_if": true, "may_panic": true, "props": true, "uf": true, "def": true, "ghost": true,
 	"axiom": true, "lemma": true, "derive": true, "end": true, "modifies": true, "noframe": true, "bounds": true,
-	"package": true,
+	"package": true, "assert": true,
 }
 
 // LoadSpecFile parses one contract file. pkgPath is the import path used to
@@ -345,6 +357,27 @@ func (s *Specs) LoadSpecFile(path string, pkgPath string) error {
 				cur.MayPanic = true
 			case "props":
 				cur.Props = strings.Fields(strings.ReplaceAll(rest, ",", " "))
+			case "assert":
+				// assert[name] before "statement text" :: expr
+				r := strings.TrimSpace(rest)
+				if !strings.HasPrefix(r, "before ") {
+					return perr(rl.line, "assert: expected 'before \"text\" :: expr'")
+				}
+				r = strings.TrimSpace(strings.TrimPrefix(r, "before "))
+				if !strings.HasPrefix(r, "\"") {
+					return perr(rl.line, "assert: quoted statement text expected")
+				}
+				end := strings.Index(r[1:], "\" ::")
+				if end < 0 {
+					return perr(rl.line, "assert: missing '\" ::'")
+				}
+				at := r[1 : 1+end]
+				etxt := strings.TrimSpace(r[1+end+4:])
+				e, err := ParseExpr(etxt)
+				if err != nil {
+					return perr(rl.line, "assert: %v", err)
+				}
+				cur.Asserts = append(cur.Asserts, &AssertSpec{Tag: tag, At: at, E: e, Text: etxt, Line: rl.line})
 			case "requires", "ensures", "panics_if":
 				c, err := mkClause(kw, rest, rl.line)
 				if err != nil {
